@@ -162,6 +162,9 @@ def _match(entry, viol):
 # ---------------------------------------------------------------------------
 
 
+from .sim.net import SpinDetected as _SPIN  # noqa: E402
+
+
 def check_module(prop):
     return importlib.import_module(f"wsverif.checks.{prop.lower()}")
 
@@ -169,7 +172,21 @@ def check_module(prop):
 def run_shard(prop, tier, seed, shard, nshards):
     mod = check_module(prop)
     res = Result(prop)
-    mod.run(res, tier, seed, shard, nshards)
+    try:
+        mod.run(res, tier, seed, shard, nshards)
+    except Exception as e:  # noqa
+        from .sim import net as _net, sched as _sched
+        if isinstance(e, (_sched.Deadlock, _sched.NotTerminated)):
+            # a call of the library blocked for ever / outlived the virtual horizon inside a batch of cases:
+            # that is an observation (the rest of this shard's batch is lost)
+            res.violation("hang", f"{type(e).__name__} while running a batch of cases: {str(e)[:300]}", {"shard": shard, "nshards": nshards},
+                          how=type(e).__name__)
+        elif isinstance(e, _sched.WatchdogExpired):
+            res.inconc(f"wall-clock watchdog: {e}")
+        else:
+            raise
+    except _SPIN as e:
+        res.violation("spin", f"transport read spin while running a batch of cases: {e}", {"shard": shard, "nshards": nshards})
     return res.dump()
 
 
